@@ -541,6 +541,8 @@ def spans_jobs(Job, cfg=CFG_NDEBUG, tier="quick"):
 def copyhfe_jobs(Job, cfg=CFG_NDEBUG, tier="quick"):
     g = ["hfe_opcodes", "is_hfe3_opcode", "copy_hfe"]
     return [Job("D_is_hfe3_opcode_%s" % cfg[0], "harness/dfs_copyhfe.c", "h_is_opcode", enforce=["is_hfe3_opcode"], defines=list(cfg[1]), extract=ext(g), tier=tier),
+            Job("D_hfe_side_blocks_%s" % cfg[0], "harness/dfs_sideblocks.c", "h_side_blocks", enforce=["hfe_side_blocks"], loops=True,
+                defines=list(cfg[1]), extract=ext(["hfe_block_sizes", "hfe_side_blocks"]), tier=tier, cover=True, solver="portfolio"),
             Job("D_copy_hfe_v1_%s" % cfg[0], "harness/dfs_copyhfe.c", "h_copy_hfe", enforce=["copy_hfe"], replace=["is_hfe3_opcode"], loops=True,
                 defines=list(cfg[1]), extract=ext(g), tier=tier, cover=True, solver="portfolio")]
 
